@@ -421,11 +421,16 @@ func runCacheRTCase(t *testing.T, c cacheRTCase) (problems []string) {
 			}
 		}
 
-		probe.mu.Lock()
-		for _, s := range probe.stale {
-			problems = append(problems, "cache-behind-notification: "+s)
+		// with writes issued back to back the cache may legitimately lag the state when a reconcile runs (the property
+		// bounds the cache by the notification that woke the reader, not by the state); the per-reconcile comparison with
+		// the state is meaningful only when every write is followed by quiescence
+		if burst == 1 {
+			probe.mu.Lock()
+			for _, s := range probe.stale {
+				problems = append(problems, "cache-behind-notification: "+s)
+			}
+			probe.mu.Unlock()
 		}
-		probe.mu.Unlock()
 
 		cancel()
 		<-done
